@@ -10,10 +10,19 @@ for d in sorted((V/'seeded').iterdir()):
     if not m.exists(): continue
     j = json.loads(m.read_text())
     res = []
-    for k, v in (j.get('check_results') or {}).items():
+    own = j.get('property')
+    for k, v in sorted((j.get('check_results') or {}).items(), key=lambda kv: (not kv[0].startswith(str(own)), kv[0])):
         lines = [l for l in v.get('lines', []) if l.startswith('VIOLATION')]
         nf = any('no-failing-input-found' in l for l in lines) and not any('no-failing-input-found' not in l for l in lines)
-        res.append(f"{k}: " + ('caught (exit 1' + (', no-failing-input-found' if nf else ', failing input reported') + ')' if v.get('exit') == 1 else f"NOT caught (exit {v.get('exit')})"))
+        caught = v.get('exit') == 1
+        how = 'caught (exit 1' + (', no-failing-input-found' if nf else ', failing input reported') + ')'
+        if k.startswith(str(own)):
+            res.append(f"{k}: " + (how if caught else f"NOT caught (exit {v.get('exit')})"))
+        else:
+            res.append(f"also run against {k}: " + (how if caught else 'silent'))
     note = j.get('maintainer_note', '')
-    summ = (j.get('summary', '')[:170] + ' — needs: ' + j.get('what_it_needs_to_manifest', '')[:150]).replace('|', '/').replace('\n', ' ')
-    print(f"| {d.name} | {j.get('property')} | {summ} | {'; '.join(res) or 'not run yet'}{(' — ' + note[:260]) if note else ''} |")
+    if isinstance(note, dict):
+        note = '; '.join(f'{a}: {b}' for a, b in note.items())
+    note = str(note)
+    summ = (j.get('summary', '')[:170] + ' — needs: ' + str(j.get('what_it_needs_to_manifest', ''))[:150]).replace('|', '/').replace('\n', ' ')
+    print(f"| {d.name} | {own} | {summ} | {'; '.join(res) or 'not run yet'}{(' — ' + note[:300].replace('|', '/')) if note else ''} |")
